@@ -49,7 +49,15 @@ var commonAssumptions = []string{
 	"strings are concrete on every path (finite pools stated in bounds); Decimal128, regexp/$jsonSchema and the reflection-driven mongo-driver codec are outside every bound (DESIGN.md section 6)",
 }
 
-const c10Tags = TNull | TInt32 | TInt64 | TDouble | TString | TBool | TArray | TDoc
+// lemma harnesses: the engine defers clones of values whose type is still undecided and treats such a
+// clone as equal to (and, for lemCloneFresh, disjoint from) its source; every property whose harnesses
+// clone undecided values re-checks the lemma on the real code (eagerclone=1 disables the deferral).
+var lemClone = Harness{Dir: "bsonkit", Func: "H_LEM_clone", Quick: P{"eagerclone": 1, "depth": 1}, Thorough: P{"eagerclone": 1, "depth": 2, "tags": TAll | TFlatArr},
+	Note: "lemma: Clone/ConvertValue preserve values"}
+var lemCloneFresh = Harness{Dir: "bsonkit", Func: "H_LEM_clone_fresh", Quick: P{"eagerclone": 1, "depth": 1}, Thorough: P{"eagerclone": 1, "depth": 2, "tags": (TAll &^ TBinary) | TFlatArr},
+	Note: "lemma: a clone shares no mutable memory with its source (binary payloads excepted, as documented)"}
+
+const c10Tags =TNull | TInt32 | TInt64 | TDouble | TString | TBool | TArray | TDoc
 
 var checks = []Check{
 	{
@@ -67,6 +75,45 @@ var checks = []Check{
 		Bounds: []string{"document: <= 2 fields (keys a,b), values null/int32/int64/double/string/bool/array/document, arrays and sub-documents of length <= 2, nesting depth ddepth; paths from {a,b,a.a,a.0,a.0.a,c}; operands any value of the same domain with depth vdepth",
 			"oracle harnesses (refcmp, refmisc) restrict to the core domain of the property: no arrays directly inside arrays; fan-out over sub-documents only with a non-null scalar operand",
 			"outside: $jsonSchema, Decimal128, regex operands, date/timestamp/objectid/binary field values in the filter harnesses (covered for Compare by C12)"},
+	},
+	{
+		Property: "C14",
+		Harnesses: []Harness{
+			{Dir: "mongokit", Func: "H_C14_inclexcl", Quick: P{"ddepth": 1, "ftags": TInt32 | TBool, "tags": TNull | TInt32 | TString | TArray | TDoc | TFlatArr}, Thorough: P{"ddepth": 2}},
+			lemClone, lemCloneFresh,
+			{Dir: "mongokit", Func: "H_C14_mix", Quick: P{"ddepth": 0}, Thorough: P{"ddepth": 1}},
+			{Dir: "mongokit", Func: "H_C14_slice", Quick: P{}, Thorough: P{}},
+			{Dir: "mongokit", Func: "H_C14_elem", Quick: P{}, Thorough: P{}},
+		},
+		Assumptions: commonAssumptions,
+		Bounds: []string{"document {_id?, a?, b?}: a,b scalars (null,int32,double,string,bool), arrays (<=2) of them, or embedded documents (keys a,b, <=2 fields) of those, depth as stated; projection of 1-2 unrelated paths from {a,b,a.a,a.b,b.a} with flags of every numeric/bool spelling; _id suppression; paths that cross an array before the last segment are assumed away (outside the property's domain)",
+			"$slice: arrays of length 0..3, count and [skip,limit] forms with full-range int64 (and int32) arguments, expected window computed without overflow",
+			"$elemMatch: arrays of length 0..3 of int32/string/{x:..} elements, conditions {$gte:c} and {x:{$gte:c}}",
+			"result order of fields is not compared (the property speaks of paths and values)"},
+	},
+	{
+		Property: "C20",
+		Harnesses: []Harness{
+			{Dir: "mongokit", Func: "H_C20_match_leaf", Quick: P{"path_n": 4, "ctags": TNull | TInt32 | TString}, Thorough: P{}},
+			{Dir: "mongokit", Func: "H_C20_match_top", Quick: P{"path_n": 4, "ctags": TNull | TInt32 | TString}, Thorough: P{}},
+			{Dir: "mongokit", Func: "H_C20_match_nested", Thorough: P{}},
+			{Dir: "mongokit", Func: "H_C20_match_num", Thorough: P{}},
+			{Dir: "mongokit", Func: "H_C20_apply_basic", Quick: P{"path_n": 6}, Thorough: P{}},
+			{Dir: "mongokit", Func: "H_C20_apply_push", Thorough: P{}},
+			{Dir: "mongokit", Func: "H_C20_apply_spec", Quick: P{}, Thorough: P{}},
+			{Dir: "mongokit", Func: "H_C20_apply_raw", Quick: P{}, Thorough: P{}},
+			{Dir: "mongokit", Func: "H_C20_apply_filters", Quick: P{}, Thorough: P{}},
+			{Dir: "mongokit", Func: "H_C20_project", Quick: P{}, Thorough: P{"ddepth": 2}},
+			{Dir: "mongokit", Func: "H_C20_sort", Thorough: P{}},
+			{Dir: "mongokit", Func: "H_C20_coll", Quick: P{"ddepth": 0, "ctags": TNull | TInt32 | TString}, Thorough: P{"ddepth": 1}},
+			{Dir: "mongokit", Func: "H_C20_window", Quick: P{}, Thorough: P{}},
+		},
+		Assumptions: commonAssumptions,
+		Bounds: []string{"document under operation: {} or {a: X}; operator arguments V: any supported non-decimal type at the top level (all 13 tags), nested values from ctags (default null,int32,double,string,array,document), containers of length <= 2 (3 for modifier documents), depth <= 2",
+			"each run makes either X or V structurally rich and the other a scalar of any type (parameter both=1 lifts this); paths from the pool incl. empty and degenerate ones; operator names incl. unknown and empty",
+			"$bits masks restricted to <= 3 set bits and $mod operands to representative magnitudes (loops over the bits of a symbolic mask and 64-bit symbolic remainders are not explorable)",
+			"skip/limit: every non-negative int; negative skip is rejected by assumption (MongoDB rejects it; lungo panics on it: see DESIGN.md findings)",
+			"outside: $jsonSchema, Decimal128, regex; driver-level calls are covered as far as C01/C17 harnesses reach them"},
 	},
 	{
 		Property: "C12",
